@@ -85,8 +85,12 @@ def coverage_structure():
         s.nodes["c%d" % i] = (Fr(xs[i]), Fr(xs[(i + 3) % 9]) + i, combos[i % 8])
     s.mats["m 17"] = (Fr("7850.000000000001"), Fr("21000000.000000004"), Fr("8100000.0000000009"), Fr("0.30000000000000004"), Fr("27500.000000000004"), Fr("43000"))
     s.secs["s-17"] = (Fr("10.300000000000001"), Fr("171.00000000000003"), Fr("15.920000000000002"), Fr("34.200000000000003"), Fr("5.7900000000000009"))
+    # values that are exactly zero are values too (a round bar given without its weak-axis data, a weightless material)
+    s.secs["z 0"] = (Fr("3.14"), Fr("0.785"), Fr(0), Fr("1.57"), Fr(0))
+    s.mats["m-0"] = (Fr(0), Fr("21000000"), Fr(0), Fr(0), Fr("27500"), Fr(0))
     for i in range(8):
-        s.bars.append({"id": "k%d" % i, "n1": "c%d" % i, "l1": combos[i], "n2": "c%d" % (i + 1), "l2": combos[(i + 3) % 8], "mat": "m 17", "sec": "s-17"})
+        s.bars.append({"id": "k%d" % i, "n1": "c%d" % i, "l1": combos[i], "n2": "c%d" % (i + 1), "l2": combos[(i + 3) % 8],
+                       "mat": "m-0" if i == 5 else "m 17", "sec": "z 0" if i in (2, 5) else "s-17"})
     s.loads = [{"kind": "c", "term": "fy", "local": True, "bar": "k0", "t": Fr("0.33333333333333331"), "v": Fr("-100.00000000000001")},
                {"kind": "d", "term": "fx", "local": False, "bar": "k3", "t0": Fr("0.10000000000000001"), "v0": Fr("-0.30000000000000004"),
                 "t1": Fr("0.90000000000000002"), "v1": Fr("12345.678901234568")},
